@@ -545,6 +545,9 @@ impl Property for C01 {
             gen::arith_template(rng, &mut sc.cmds);
             sc.set_knob("arith", 1);
         }
+        if rng.chance(8) {
+            sc.cmds = gen::goto_machine(rng, false);
+        }
         sc.stdin = gen::gen_stdin(rng, 60);
         let fault_free = rng.chance(40);
         sc.plan = gen::gen_plan(rng, fault_free);
